@@ -179,6 +179,79 @@ func TestVerifC05(t *testing.T) {
 			}
 			_ = bytes.Equal
 		}
+		// ---- through RegisterChainKey of the receiving store (R is another device of the sender's
+		// account: it meets the SAME sender device key on the account group and on every contact group,
+		// and a per-group device key on the multi-member groups), groups in a random order: an altered
+		// copy before and AFTER the valid announcement, the announcement presented for another group,
+		// then IsChainKeyKnownForDevice and a message sealed after the announcement
+		order := rng.Perm(len(groups))
+		for _, gi := range order {
+			g := groups[gi]
+			var mine *ann
+			for i := range anns {
+				// the latest announcement made for R: the message sealed below lies within its window (C02)
+				if anns[i].g == gi && anns[i].to == 0 && (mine == nil || anns[i].ctr > mine.ctr) {
+					mine = &anns[i]
+				}
+			}
+			if mine == nil {
+				continue
+			}
+			if err := R.PutGroup(ctx, g); err != nil {
+				t.Fatal(err)
+			}
+			rmd, _ := R.GetOwnMemberDeviceForGroup(g)
+			dev := sDev(g)
+			gpk, _ := g.GetPubKey()
+			reg := func(kind string, target *protocoltypes.Group, data []byte, altered bool, wantOK bool, what string) {
+				err := R.RegisterChainKey(ctx, target, dev, data)
+				obs := "None"
+				if err == nil {
+					obs = fmt.Sprintf("(Some (%d, (%d, %d)))", mine.ctr, mine.origin, mine.ctr)
+				}
+				ok, note, sig := true, "", ""
+				if (err == nil) != wantOK {
+					ok = false
+					if err == nil {
+						sig = "chain-key announcement opened by the wrong party / in the wrong group / under the wrong sender"
+						note = fmt.Sprintf("RegisterChainKey accepted %s (group %d)", what, gi)
+					} else {
+						sig = "intended recipient cannot open the announcement"
+						note = fmt.Sprintf("RegisterChainKey refused %s (group %d): %v", what, gi, err)
+					}
+				}
+				coq := fmt.Sprintf("CAnn %d %d %d %d (%d, %d) %s %d %d %d %s", ids.key(dev), ids.key(rmd.Member()), ids.nonce(g), mine.ctr, mine.origin, mine.ctr,
+					vharness.Bool(altered), ids.nonce(target), ids.key(rmd.Member()), ids.key(dev), obs)
+				out.Emit(vharness.Case{Kind: kind, Coq: coq, Key: fmt.Sprintf("%s|%d|%d|%s", coq, round, gi, what), Nontrivial: true, OracleOK: ok, Note: note, Sig: sig})
+			}
+			flip := func() []byte {
+				m := append([]byte(nil), mine.data...)
+				bit := rng.Intn(len(m) * 8)
+				m[bit/8] ^= 1 << (bit % 8)
+				return m
+			}
+			reg("register", g, flip(), true, false, "an altered copy before the valid announcement")
+			reg("register", g, mine.data, false, true, "the valid announcement")
+			known := R.IsChainKeyKnownForDevice(ctx, gpk, dev)
+			reg("register", g, flip(), true, false, "an altered copy after the valid announcement")
+			other := groups[(gi+1+rng.Intn(len(groups)-1))%len(groups)]
+			if err := R.PutGroup(ctx, other); err == nil {
+				reg("register", other, mine.data, false, false, "the announcement of this group presented for another group")
+			}
+			// a message sealed after every announcement opens
+			okMsg, noteMsg := known, ""
+			if !known {
+				noteMsg = fmt.Sprintf("IsChainKeyKnownForDevice is false after the valid announcement was registered (group %d, registered after %d other groups of the same round)", gi, 0)
+			} else if e, err := S.SealEnvelope(ctx, g, vPayload(uint64(900+gi), 5)); err == nil {
+				if env, hdr, err := R.OpenEnvelopeHeaders(e, g); err != nil {
+					okMsg, noteMsg = false, "headers of a message of the announced device do not open: "+err.Error()
+				} else if _, err := R.OpenEnvelopePayload(ctx, env, hdr, gpk, rmd.Device(), vCID(e)); err != nil {
+					okMsg, noteMsg = false, fmt.Sprintf("a message sealed after the announcement does not open on the recipient (group %d): %v", gi, err)
+				}
+			}
+			out.Emit(vharness.Case{Kind: "register-then-open", Key: fmt.Sprintf("reg-open|%d|%d", round, gi), Nontrivial: true, OracleOK: okMsg, Note: noteMsg,
+				Sig: "announcement registered but the sender's messages do not open"})
+		}
 	}
 	t.Logf("C05 harness: %d cases", out.N)
 }
